@@ -230,8 +230,44 @@ def normalised(S):
             ev = fs[0]
             if isinstance(ev, Enum):
                 errk = tuple(sorted(S["eng"].T.variant_name(ev.ty, vi) for vi, _ in ev.variants))
-        out.add((row["with_storage_header"], ios, ranges, row["result"], sl, errk))
+        out.add((row["with_storage_header"], ios, ranges, row["result"], sl, errk, declared_range(S, row, st)))
     return out
+
+
+def declared_range(S, row, st):
+    """Feasible range of the declared message length (big-endian u16 at offset storage+2 of the scratch buffer) on an
+    exit reached after the header read succeeded: the guard conditions of the exit, semantically."""
+    ios = [k for k in st.key if k[0] == "io"]
+    if not ios or ios[0][1] != "ok" or row["with_storage_header"] is None:
+        return None
+    eng = S["eng"]
+    s = 16 if row["with_storage_header"] else 0
+    obj = st.locs.get("obj:self")
+    buf = obj.fields[S["i_buf"]] if isinstance(obj, Struct) else None
+    if not isinstance(buf, Cont):
+        return None
+    name = "rd[%s@%d:2:BE]" % (buf.id, s + 2)
+    if name not in eng.bounds:
+        return None
+    L = Lin.sym(name)
+    lo, hi = 0, 65535
+    a, b = 0, 65535
+    while a < b:  # largest c with L >= c
+        m = (a + b + 1) // 2
+        if st.holds(L.sub(Lin.const(m)), eng):
+            a = m
+        else:
+            b = m - 1
+    lo = a
+    a, b = 0, 65535
+    while a < b:  # smallest c with L <= c
+        m = (a + b) // 2
+        if st.holds(Lin.const(m).sub(L), eng):
+            b = m
+        else:
+            a = m + 1
+    hi = a
+    return (lo, hi)
 
 
 def _unbase(s):
@@ -254,23 +290,29 @@ def sibling_check(ctx, S_async):
         return
     a, b = S_async["norm"], S_sync["norm"]
     # error kinds are compared only where both sides resolve them (an unresolved `?` conversion is not a difference)
-    ka = {r[:5] for r in a if r[5] is None}
-    kb = {r[:5] for r in b if r[5] is None}
-    a = {r if (r[5] is not None and r[:5] not in kb) else r[:5] + (None,) for r in a}
-    b = {r if (r[5] is not None and r[:5] not in ka) else r[:5] + (None,) for r in b}
-    both = {r[:5] for r in a} & {r[:5] for r in b}
-    a = {(r[:5] + (None,)) if (r[:5] in both and (r[:5] + (None,)) in b) else r for r in a}
-    b = {(r[:5] + (None,)) if (r[:5] in both and (r[:5] + (None,)) in a) else r for r in b}
+    def k5(r):
+        return r[:5] + (r[6],)
+
+    def wild(r):
+        return r[:5] + (None, r[6])
+
+    ka = {k5(r) for r in a if r[5] is None}
+    kb = {k5(r) for r in b if r[5] is None}
+    a = {r if (r[5] is not None and k5(r) not in kb) else wild(r) for r in a}
+    b = {r if (r[5] is not None and k5(r) not in ka) else wild(r) for r in b}
+    both = {k5(r) for r in a} & {k5(r) for r in b}
+    a = {wild(r) if (k5(r) in both and wild(r) in b) else r for r in a}
+    b = {wild(r) if (k5(r) in both and wild(r) in a) else r for r in b}
     if S_async["K"] != S_sync["K"]:
         R.violation("SIB", "capacity", "the async reader's scratch buffer has %d bytes, the blocking reader's %d" % (S_async["K"], S_sync["K"]), function=S_async["N"]["new"])
     else:
         R.obligation("SIB", "capacity", "discharged", "both readers allocate %d bytes" % S_sync["K"])
     for row in sorted(a - b, key=repr):
-        R.violation("SIB", "async-only|%r" % (row,), "the async reader has an exit the blocking reader does not have: storage=%s reads=%s ranges=%s result=%s slice=%s err=%s" % row, function=S_async["N"]["slice"], file=S_async["body"]["span"]["f"], line=S_async["body"]["span"]["l"])
+        R.violation("SIB", "async-only|%r" % (row,), "the async reader has an exit the blocking reader does not have: storage=%s reads=%s ranges=%s result=%s slice=%s err=%s declared-length range=%s" % row, function=S_async["N"]["slice"], file=S_async["body"]["span"]["f"], line=S_async["body"]["span"]["l"])
     for row in sorted(b - a, key=repr):
-        R.violation("SIB", "blocking-only|%r" % (row,), "the blocking reader has an exit the async reader does not have: storage=%s reads=%s ranges=%s result=%s slice=%s err=%s" % row, function=S_async["N"]["slice"], file=S_async["body"]["span"]["f"], line=S_async["body"]["span"]["l"])
+        R.violation("SIB", "blocking-only|%r" % (row,), "the blocking reader has an exit the async reader does not have: storage=%s reads=%s ranges=%s result=%s slice=%s err=%s declared-length range=%s" % row, function=S_async["N"]["slice"], file=S_async["body"]["span"]["f"], line=S_async["body"]["span"]["l"])
     for row in sorted(a & b, key=repr):
-        R.instance("SIB", "common exit storage=%s reads=%s ranges=%s result=%s slice=%s err=%s" % row)
+        R.instance("SIB", "common exit storage=%s reads=%s ranges=%s result=%s slice=%s err=%s declared-length range=%s" % row)
         R.obligation("SIB", "exit|%r" % (row,), "discharged", "same exit in both readers")
 
 
